@@ -80,13 +80,20 @@ def close(a, b, tol):
     return abs(a - b) <= tol[0] + tol[1] * max(abs(a), abs(b))
 
 
+def tol_for(case):
+    """(atol, rtol) of the dtype; the absolute part shrinks with the length scale of the data (1e-9 .. 1e-11 units)."""
+    t = TOLS[case["dtype"]]
+    sc = float(case.get("scale", 1.0))
+    return (t[0] * min(1.0, sc), t[1])
+
+
 # ==========================================================================
 # data builders shared by assign / predict
 
-def build_rows(rows, dtype, scale, jitter_seed, stream=0):
+def build_rows(rows, dtype, scale, jitter_seed, stream=0, offset=0.0):
     a = np.array(rows, dtype=np.float64).reshape(len(rows), -1)
     if dtype.startswith("float"):
-        a = a * scale
+        a = a * scale + offset
         if jitter_seed is not None:
             a = a + np.random.RandomState(jitter_seed + stream).uniform(-0.3, 0.3, size=a.shape) * scale
     return a.astype(dtype)
@@ -102,9 +109,9 @@ def apply_layout(a, layout):
     return np.ascontiguousarray(a)
 
 
-def build_centers(X, spec, dtype, scale, jitter_seed):
+def build_centers(X, spec, dtype, scale, jitter_seed, offset=0.0):
     new_rows = [s[1] for s in spec if s[0] == "new"]
-    newa = build_rows(new_rows, dtype, scale, jitter_seed, stream=1) if new_rows else None
+    newa = build_rows(new_rows, dtype, scale, jitter_seed, stream=1, offset=offset) if new_rows else None
     out, ni = [], 0
     for s in spec:
         if s[0] == "row":
@@ -200,12 +207,26 @@ def assign_case(draw, max_frames=12, max_centers=16, max_feat=4, md_share=4):
         jitter = None
         if dtype.startswith("float") and draw(st.sampled_from([True, False, False, False])):
             jitter = draw(st.integers(0, 10 ** 6))
-        return {"kind": "array", "regime": regime, "metric": metric, "dtype": dtype,
+        case = {"kind": "array", "regime": regime, "metric": metric, "dtype": dtype,
                 "scale": draw(st.sampled_from([1.0, 0.5, 0.25])), "jitter_seed": jitter,
                 "layout": draw(st.sampled_from(["C", "F", "strided"])),
                 "X": [int_list(draw, lo, hi, f) for _ in range(n)],
                 "C": draw_center_spec(draw, k, n, f, lo, hi),
                 "centers_as": draw(st.sampled_from(["list", "list", "array", "tuple"]))}
+        numeric = draw(st.sampled_from(["plain"] * 5 + ["tiny", "offset", "near_tie"]))
+        if numeric == "tiny" and dtype.startswith("float"):
+            case["scale"] = draw(st.sampled_from([1e-9, 1e-10, 1e-11]))           # coordinates in metres
+        elif numeric == "offset" and dtype == "float64":
+            case["scale"], case["offset"] = 1e-3, draw(st.sampled_from([1e5, -3e4, 1e6]))   # small spread, large common offset
+        elif numeric == "near_tie" and dtype != "float32":
+            # two centers a, b and frames whose distances to them differ by one part in 1e5 .. 1e7 (exact in float64)
+            L = draw(st.sampled_from([50000, 123457, 600000, 3000000]))
+            xs = [0, 2 * L + 1, L, L + 1] + [draw(st.integers(-L, 3 * L)) for _ in range(draw(st.integers(0, 4)))]
+            case["X"] = [[x] + [0] * (f - 1) for x in xs]
+            case["C"] = draw(st.sampled_from([[["row", 0], ["row", 1]], [["row", 1], ["row", 0]]]))
+            case["scale"], case["jitter_seed"], case["regime"] = 1.0, None, "near_tie"
+        case["numeric"] = numeric
+        return case
     n_atoms = draw(st.integers(4, 6))
     return {"kind": "md", "regime": regime, "metric": "rmsd", "n_atoms": n_atoms,
             "X": draw_md_frames(draw, n, n_atoms),
@@ -268,9 +289,10 @@ def check_nearest_rmsd(a, d, M, S, what):
 
 def run_assign(case):
     if case["kind"] == "array":
-        dtype, tol = case["dtype"], TOLS[case["dtype"]]
-        X = apply_layout(build_rows(case["X"], dtype, case["scale"], case["jitter_seed"]), case["layout"])
-        C = build_centers(X, case["C"], dtype, case["scale"], case["jitter_seed"])
+        dtype, tol = case["dtype"], tol_for(case)
+        X = apply_layout(build_rows(case["X"], dtype, case["scale"], case["jitter_seed"], offset=case.get("offset", 0.0)),
+                         case["layout"])
+        C = build_centers(X, case["C"], dtype, case["scale"], case["jitter_seed"], offset=case.get("offset", 0.0))
         Xr = np.array(X, dtype=np.float64)
         D = R.dist_matrix(Xr, [np.array(c, dtype=np.float64) for c in C], case["metric"])
         rec = Recorder(get_metric(case["metric"]))
@@ -308,7 +330,7 @@ def run_assign(case):
         used = len(set(int(x) for x in a))
         cl = ["kind=array", "regime=" + case["regime"], "metric=" + case["metric"], "dtype=" + dtype,
               "layout=" + case["layout"], "centers_as=" + case["centers_as"], "exact=" + exact,
-              "ties=%s" % ties, "jitter=%s" % (case["jitter_seed"] is not None),
+              "ties=%s" % ties, "jitter=%s" % (case["jitter_seed"] is not None), "numeric=" + case.get("numeric", "plain"),
               "dup_frames=%s" % (len({tuple(r) for r in Xr.tolist()}) < len(X))]
         return Info(len(C) >= 2 and used >= 2, cl)
 
@@ -371,6 +393,16 @@ def predict_case(draw, max_train=14, max_new=10):
     case = {"kind": "array", "est": est, "metric": metric, "dtype": dtype, "scale": scale, "train": train,
             "new": new, "seed": seed, "init": None, "n_clusters": None, "radius": None,
             "new_as": draw(st.sampled_from(["C", "F", "strided"]))}
+    numeric = draw(st.sampled_from(["plain"] * 4 + ["tiny", "offset"]))
+    if numeric == "tiny" and dtype.startswith("float"):
+        case["scale"] = scale = draw(st.sampled_from([1e-9, 1e-10]))
+    elif numeric == "offset" and dtype == "float64":
+        case["scale"], case["offset"] = 1e-3, draw(st.sampled_from([1e5, -3e4, 1e6]))
+        scale = 1e-3
+    case["numeric"] = numeric
+    # life of the estimator object before the observed fit/predict: fresh, or already fitted to (and asked to predict
+    # on) other data with another number of centers
+    case["life"] = draw(st.sampled_from(["fresh", "fresh", "refit"]))
     if est == "kmedoids":
         # warm start on centers with distinct coordinates (a cold start draws from OS entropy)
         k = draw(st.integers(1, min(len(distinct), 5)))
@@ -451,14 +483,33 @@ def run_predict(case):
               "rel=%s" % ("more_centers" if len(Cx) > len(Xnew) else "fewer_or_equal")]
         return Info(len(Cx) >= 2 and used >= 2, cl)
 
-    dtype, tol = case["dtype"], TOLS[case["dtype"]]
-    Xtr = build_rows(case["train"], dtype, case["scale"], None)
-    Xnew = apply_layout(build_rows(case["new"], dtype, case["scale"], None), case["new_as"])
+    dtype, tol = case["dtype"], tol_for(case)
+    off = case.get("offset", 0.0)
+    Xtr = build_rows(case["train"], dtype, case["scale"], None, offset=off)
+    Xnew = apply_layout(build_rows(case["new"], dtype, case["scale"], None, offset=off), case["new_as"])
     m = metric_arg(case["metric"])
     np.random.seed(seed % (2 ** 32))           # KMedoids proposals use the global numpy RNG
+    refit = case.get("life") == "refit"
+
+    def first_life(est, **fit_kw):
+        """an earlier fit + predict of the same estimator object on other data (reversed, shifted by one lattice step)"""
+        if not refit:
+            return
+        other = (Xtr[::-1].astype(np.float64) + case["scale"]).astype(dtype) if dtype.startswith("float") else \
+            np.ascontiguousarray(Xtr[::-1] + 1)
+        try:
+            est.fit(np.ascontiguousarray(other), **fit_kw)
+            est.predict(np.ascontiguousarray(other[:1]))
+            _ = est.centers_
+        except Exception:
+            pass
     try:
         if case["est"] == "kcenters":
             est = KCenters(m, n_clusters=case["n_clusters"], cluster_radius=case["radius"])
+            if refit:
+                est.n_clusters = 1 if case["n_clusters"] is None else case["n_clusters"] + 1
+                first_life(est)
+                est.n_clusters = case["n_clusters"]
             if case["init"] is not None:
                 est.fit(Xtr, init_centers=[Xtr[i].copy() for i in case["init"]])
             else:
@@ -466,15 +517,22 @@ def run_predict(case):
         elif case["est"] == "khybrid":
             est = KHybrid(m, n_clusters=case["n_clusters"], cluster_radius=case["radius"],
                           kmedoids_updates=case["n_iters"], random_state=seed)
+            first_life(est)
             est.fit(Xtr)
         else:
             est = KMedoids(m, n_iters=case["n_iters"])
+            first_life(est, cluster_center_inds=[0])
             est.fit(Xtr, cluster_center_inds=[int(i) for i in case["init"]])
     except Exception as e:            # fitting is the subject of C01/C02/C09, not of this property
         raise Skip("fit failed: %r" % (e,))
-    centers = est.centers_
+    # "the given list of centers" of predict is what the LAST fit produced (its result record), which is also what the
+    # centers_ attribute has to show
+    centers = est.result_.centers
     C = [np.array(c, dtype=np.float64).reshape(-1) for c in centers]
     require(len(C) >= 1, "fitted estimator has no centers")
+    shown = est.centers_
+    require(len(shown) == len(C) and all(np.array_equal(np.asarray(x).reshape(-1), y) for x, y in zip(shown, C)),
+            "centers_ does not show the centers of the last fit", shown=len(shown), fitted=len(C), life=case.get("life"))
     res = est.predict(Xnew)
     D = R.dist_matrix(np.array(Xnew, dtype=np.float64), C, case["metric"])
     check_nearest(res.assignments, res.distances, D, tol, "predict")
@@ -486,7 +544,7 @@ def run_predict(case):
         ("n" if case["radius"] is None else ("radius" if case["n_clusters"] is None else "both"))
     cl = ["kind=array", "est=" + case["est"], "metric=" + case["metric"], "dtype=" + dtype, "stop=" + stop,
           "rel=%s" % ("more_centers" if len(C) > len(Xnew) else "fewer_or_equal"),
-          "n_iters=%s" % case.get("n_iters")]
+          "n_iters=%s" % case.get("n_iters"), "numeric=" + case.get("numeric", "plain"), "life=" + case.get("life", "fresh")]
     return Info(len(C) >= 2 and used >= 2, cl)
 
 
